@@ -35,14 +35,46 @@ func TestMain(m *testing.M) {
 
 func manhattan(a, b orb.Point) float64 { return math.Abs(a[0]-b[0]) + math.Abs(a[1]-b[1]) }
 
+// distFunc is the distance function handed to the simplifier.
 func distFunc(name string) orb.DistanceFunc {
 	switch name {
 	case "geo":
 		return geo.Distance
 	case "manhattan":
 		return manhattan
+	case "planar-reentrant":
+		return reentrantDistance
 	}
 	return planar.Distance
+}
+
+// oracleDF is the same metric without the nested calls (used by the oracle).
+func oracleDF(name string) orb.DistanceFunc {
+	if name == "planar-reentrant" {
+		return planar.Distance
+	}
+	return distFunc(name)
+}
+
+// reentrantDistance is planar.Distance computed by a callback that itself
+// simplifies three unrelated small lines (radial inside radial, plus
+// Douglas-Peucker and Visvalingam) and checks those results before answering:
+// a legal caller that makes scratch state kept between calls inside the package
+// visible without goroutines.
+func reentrantDistance(a, b orb.Point) float64 {
+	r := simplify.Radial(planar.Distance, 1).LineString(orb.LineString{{7, 7}, {7.5, 7}, {9, 7}, {9, 7.2}, {13, 11}})
+	if len(r) != 3 || r[0] != (orb.Point{7, 7}) || r[1] != (orb.Point{9, 7}) || r[2] != (orb.Point{13, 11}) {
+		panic(fmt.Sprintf("Radial called from inside a DistanceFunc returned %v, want [[7 7] [9 7] [13 11]]", r))
+	}
+	d := simplify.DouglasPeucker(1).LineString(orb.LineString{{0, 0}, {1, 0.1}, {2, 3}, {3, 0}})
+	if len(d) != 3 || d[0] != (orb.Point{0, 0}) || d[1] != (orb.Point{2, 3}) || d[2] != (orb.Point{3, 0}) {
+		panic(fmt.Sprintf("DouglasPeucker called from inside a DistanceFunc returned %v, want [[0 0] [2 3] [3 0]]", d))
+	}
+	v := simplify.VisvalingamKeep(3).LineString(orb.LineString{{0, 0}, {1, 0.1}, {2, 3}, {3, 0}})
+	if len(v) != 3 || v[0] != (orb.Point{0, 0}) || v[1] != (orb.Point{2, 3}) || v[2] != (orb.Point{3, 0}) {
+		panic(fmt.Sprintf("VisvalingamKeep called from inside a DistanceFunc returned %v, want [[0 0] [2 3] [3 0]]", v))
+	}
+	return planar.Distance(a, b)
 }
 
 // Spec names one simplifier configuration.
@@ -130,7 +162,7 @@ func checkSpecLeaf(s Spec, in []orb.Point, ring bool, inf *info) ([]orb.Point, e
 			return out, fmt.Errorf("%s is not idempotent: in=%v once=%v twice=%v", what, short(in), short(out), short(again))
 		}
 	case "radial":
-		df := distFunc(s.DF)
+		df := oracleDF(s.DF)
 		if err := checkRadialSpacing(what, out, df, float64(s.T)); err != nil {
 			return out, err
 		}
@@ -150,6 +182,41 @@ func checkSpecLeaf(s Spec, in []orb.Point, ring bool, inf *info) ([]orb.Point, e
 		}
 	}
 	return out, nil
+}
+
+// checkIndependent (results are independent values): snap is the verified
+// result of s on in. (a) Retention: using the same kind of simplifier on
+// another line must not change a result obtained earlier. (b) Scribble and
+// repeat: after the first result is overwritten and appended to, the same call
+// on a fresh copy of the input must return the snapshot again. (Simplifiers
+// work in place on their INPUT, which is allowed: every call here gets its own
+// copy. The index maps of the simplifiers are not reachable through the
+// exported API, so there is nothing to scribble on there.)
+func checkIndependent(s Spec, in []orb.Point, ring bool, snap []orb.Point) error {
+	kind := "LineString"
+	if ring {
+		kind = "Ring"
+	}
+	what := s.String() + "." + kind
+	snap = clonePts(snap)
+	first := apply(s.make(), in, ring)
+	if !sameSeq(first, snap) {
+		return fmt.Errorf("%s: two calls on equal inputs differ: %v vs %v", what, short(snap), short(first))
+	}
+	apply(s.make(), []orb.Point{{3, 3}, {4, 9}, {5, 3}, {6, 9}, {7, 3}, {8, 8}, {9, 3}, {3, 3}}, ring)
+	if !sameSeq(first, snap) {
+		return fmt.Errorf("%s: a result obtained earlier changed when the simplifier was used on another line (the result shares memory with state kept in the package): was %v, now %v", what, short(snap), short(first))
+	}
+	for i := range first {
+		first[i] = orb.Point{-12345.678 - float64(i), 98765.4321}
+	}
+	first = append(first, orb.Point{-1, -1}, orb.Point{-2, -2})
+	_ = first
+	again := apply(s.make(), in, ring)
+	if !sameSeq(again, snap) {
+		return fmt.Errorf("%s: after the first result was overwritten, the same call on a fresh copy of the input returns %v, want %v: in=%v", what, short(again), short(snap), short(in))
+	}
+	return nil
 }
 
 // ---------------------------------------------------------------- line case
@@ -202,7 +269,7 @@ func magOK(v float64) bool { return v == 0 || (math.Abs(v) >= minMag && math.Abs
 // non-zero coordinates, hence coordinate differences, and thresholds lie in
 // [2^-200, 2^200]; thresholds may also be 0 or +Inf).
 func rescalable(c LineCase) bool {
-	if c.Scale == 0 || c.Scale < -60 || c.Scale > 60 || (c.DF != "planar" && c.DF != "manhattan") {
+	if c.Scale == 0 || c.Scale < -60 || c.Scale > 60 || (c.DF != "planar" && c.DF != "manhattan" && c.DF != "planar-reentrant") {
 		return false
 	}
 	for _, p := range c.Pts {
@@ -334,6 +401,17 @@ func checkLineBase(c LineCase) (info, *lineOuts, error) {
 	outs.add(fmt.Sprintf("VisvalingamKeep(%d)", c.Keep), vk)
 	outs.add(fmt.Sprintf("Visvalingam(%v,%d)", ta1, c.Keep), c1)
 	outs.add(fmt.Sprintf("Visvalingam(%v,%d)", ta2, c.Keep), c2)
+	for _, x := range []struct {
+		s   Spec
+		out []orb.Point
+	}{
+		{Spec{Algo: "dp", T: c.TD1}, dp1}, {Spec{Algo: "radial", T: c.TR, DF: c.DF}, rad},
+		{Spec{Algo: "visthr", T: c.TA2}, v2}, {Spec{Algo: "vis", T: c.TA1, Keep: c.Keep}, c1},
+	} {
+		if err := checkIndependent(x.s, in, ring, x.out); err != nil {
+			return inf, outs, err
+		}
+	}
 	if ta1 <= ta2 && !isSubseq(c2, c1) {
 		return inf, outs, fmt.Errorf("Visvalingam(t,%d) not monotone: threshold %v keeps a vertex that %v dropped: in=%v out(%v)=%v out(%v)=%v", c.Keep, ta2, ta1, short(in), ta1, short(c1), ta2, short(c2))
 	}
@@ -656,6 +734,32 @@ func checkGeom(c GeomCase) (info, error) {
 	}
 	if err := expectGeneric(mk, name+".Simplify", g, got); err != nil {
 		return inf, err
+	}
+	// results are independent values: overwriting one member of the result must
+	// not change its siblings, and the same call on a fresh copy returns the same
+	// thing again afterwards
+	{
+		snap := gen.DeepCopy(got)
+		var ls [][]orb.Point
+		leaves(got, func(pts []orb.Point, ring bool) { ls = append(ls, pts) })
+		if len(ls) > 0 {
+			for i := range ls[0] {
+				ls[0][i] = orb.Point{-12345.678 - float64(i), 98765.4321}
+			}
+			_ = append(ls[0], orb.Point{-1, -1}, orb.Point{-2, -2})
+			var sl [][]orb.Point
+			leaves(snap, func(pts []orb.Point, ring bool) { sl = append(sl, pts) })
+			for i := 1; i < len(ls) && i < len(sl); i++ {
+				if !sameSeq(ls[i], sl[i]) {
+					return inf, fmt.Errorf("%s.Simplify of %s: overwriting the first line of the result changed line %d of the same result (siblings share memory): was %v, now %v", name, gen.KindOf(g), i, short(sl[i]), short(ls[i]))
+				}
+			}
+		}
+		again := mk().Simplify(gen.DeepCopy(g))
+		if same, diff := gen.SameBits(again, snap); !same {
+			return inf, fmt.Errorf("%s.Simplify of %s: after the first result was overwritten, the same call on a fresh copy returns something else (%s): first=%s second=%s", name, gen.KindOf(g), diff, gen.Canon(snap), gen.Canon(again))
+		}
+		got = snap
 	}
 	// = typed method of the kind
 	if tg, ok := typed(mk(), g); ok {
@@ -1027,7 +1131,7 @@ func genDF(t *rapid.T, fam string) string {
 	if fam == "lonlat" {
 		return rapid.SampledFrom([]string{"geo", "geo", "planar"}).Draw(t, "df")
 	}
-	return rapid.SampledFrom([]string{"planar", "planar", "manhattan"}).Draw(t, "df")
+	return rapid.SampledFrom([]string{"planar", "planar-reentrant", "manhattan"}).Draw(t, "df")
 }
 
 func genKeep(t *rapid.T, n int) int {
@@ -1046,6 +1150,7 @@ func assumptions() {
 	stats.Assume("radial distance functions: planar.Distance, geo.Distance (lon/lat inputs only), a Manhattan distance defined in the harness")
 	stats.Assume("float64 range: distances below 1e-150 and doubled areas below 1e-300 count as zero (their squares / products underflow: DouglasPeucker(0) drops a vertex 6e-163 away from the chord), |v| <= 1e100 (beyond ~1e154 they overflow)")
 	stats.Assume("rescaling: a third of the line cases (and half of the enumerated ones) are also judged multiplied by 2^k, k in -60..60 (distance thresholds by 2^k, area thresholds by 4^k, planar or Manhattan distance): every oracle must hold on the twin and every simplifier must keep exactly the same vertices; only cases whose non-zero magnitudes and thresholds lie in 2^-200..2^200 (or thresholds 0 / +Inf) are rescaled, so that no intermediate can overflow or underflow")
+	stats.Assume("concurrency: simplifier values are never shared between goroutines; concurrent groups use only checks that are pure functions of the case (no package-level configuration of orb is touched)")
 	stats.Assume("history: a simplifier value is used from one goroutine at a time; every result of a reused value must be bit-equal to the result of a fresh value with the same parameters, and Threshold / ToKeep / DistanceFunc must be unchanged by use")
 	stats.Assume("generic entry point: an empty or nil MultiPoint may come back as nil or as itself; a polygon without rings inside a multi-polygon may be dropped or kept; collection members are never nil interfaces")
 }
@@ -1072,87 +1177,99 @@ func classifyLine(c LineCase, inf info, err error) {
 	}
 }
 
-func TestPropLine(t *testing.T) {
-	assumptions()
-	stats.Check(t, 160000, 4000000, func(rt *rapid.T) {
-		pts, isNil, fam := genPts(rt, 40)
-		c := LineCase{Pts: gen.Pts(pts), Nil: isNil, Fam: fam}
-		c.Ring = rapid.Bool().Draw(rt, "ring")
-		c.DF = genDF(rt, fam)
-		a, ka := genDist(rt, "td1", pts, planar.Distance)
-		b, kb := genDist(rt, "td2", pts, planar.Distance)
-		if a > b {
-			a, b, ka, kb = b, a, kb, ka
+// drawLineCase draws one line case; count selects whether the generator
+// classes are counted (not for the members of concurrent groups).
+func drawLineCase(rt *rapid.T, count bool) LineCase {
+	cls := func(s string) {
+		if count {
+			stats.Class(s)
 		}
-		c.TD1, c.TD2 = gen.F(a), gen.F(b)
-		r, kr := genDist(rt, "tr", pts, distFunc(c.DF))
-		c.TR = gen.F(r)
-		x, kx := genArea(rt, "ta1", pts)
-		y, ky := genArea(rt, "ta2", pts)
-		if x > y {
-			x, y, kx, ky = y, x, ky, kx
-		}
-		c.TA1, c.TA2 = gen.F(x), gen.F(y)
-		c.Keep = genKeep(rt, len(pts))
-		// exact power-of-two rescaling twin (scale vacuity: an absolute epsilon in
-		// a simplifier, or an absolute tolerance in this check, shows up here)
-		if rapid.IntRange(0, 2).Draw(rt, "rescale") == 1 {
-			c.Scale = rapid.IntRange(-60, 60).Draw(rt, "k")
-			// thresholds that cannot be rescaled exactly become +Inf (huge) or 0 (subnormal range)
-			for _, t := range []*gen.F{&c.TD1, &c.TD2, &c.TR, &c.TA1, &c.TA2} {
-				if v := float64(*t); !magOK(v) && !math.IsInf(v, 1) {
-					if v > 1 {
-						*t = gen.F(math.Inf(1))
-					} else {
-						*t = 0
-					}
+	}
+	pts, isNil, fam := genPts(rt, 40)
+	c := LineCase{Pts: gen.Pts(pts), Nil: isNil, Fam: fam}
+	c.Ring = rapid.Bool().Draw(rt, "ring")
+	c.DF = genDF(rt, fam)
+	a, ka := genDist(rt, "td1", pts, planar.Distance)
+	b, kb := genDist(rt, "td2", pts, planar.Distance)
+	if a > b {
+		a, b, ka, kb = b, a, kb, ka
+	}
+	c.TD1, c.TD2 = gen.F(a), gen.F(b)
+	r, kr := genDist(rt, "tr", pts, oracleDF(c.DF))
+	c.TR = gen.F(r)
+	x, kx := genArea(rt, "ta1", pts)
+	y, ky := genArea(rt, "ta2", pts)
+	if x > y {
+		x, y, kx, ky = y, x, ky, kx
+	}
+	c.TA1, c.TA2 = gen.F(x), gen.F(y)
+	c.Keep = genKeep(rt, len(pts))
+	// exact power-of-two rescaling twin (scale vacuity: an absolute epsilon in
+	// a simplifier, or an absolute tolerance in this check, shows up here)
+	if rapid.IntRange(0, 2).Draw(rt, "rescale") == 1 {
+		c.Scale = rapid.IntRange(-60, 60).Draw(rt, "k")
+		// thresholds that cannot be rescaled exactly become +Inf (huge) or 0 (subnormal range)
+		for _, t := range []*gen.F{&c.TD1, &c.TD2, &c.TR, &c.TA1, &c.TA2} {
+			if v := float64(*t); !magOK(v) && !math.IsInf(v, 1) {
+				if v > 1 {
+					*t = gen.F(math.Inf(1))
+				} else {
+					*t = 0
 				}
 			}
-			if c.TD1 > c.TD2 {
-				c.TD1, c.TD2 = c.TD2, c.TD1
-			}
-			if c.TA1 > c.TA2 {
-				c.TA1, c.TA2 = c.TA2, c.TA1
-			}
-			if c.Scale != 0 && !rescalable(c) {
-				stats.Class("rescale: skipped (geo distance or a coordinate magnitude outside 2^-200..2^200)")
-				c.Scale = 0
-			}
 		}
-		switch {
-		case c.Scale < -30:
-			stats.Class("rescale: 2^-60..2^-31")
-		case c.Scale < 0:
-			stats.Class("rescale: 2^-30..2^-1")
-		case c.Scale > 30:
-			stats.Class("rescale: 2^31..2^60")
-		case c.Scale > 0:
-			stats.Class("rescale: 2^1..2^30")
+		if c.TD1 > c.TD2 {
+			c.TD1, c.TD2 = c.TD2, c.TD1
 		}
+		if c.TA1 > c.TA2 {
+			c.TA1, c.TA2 = c.TA2, c.TA1
+		}
+		if c.Scale != 0 && !rescalable(c) {
+			cls("rescale: skipped (geo distance or a coordinate magnitude outside 2^-200..2^200)")
+			c.Scale = 0
+		}
+	}
+	switch {
+	case c.Scale < -30:
+		cls("rescale: 2^-60..2^-31")
+	case c.Scale < 0:
+		cls("rescale: 2^-30..2^-1")
+	case c.Scale > 30:
+		cls("rescale: 2^31..2^60")
+	case c.Scale > 0:
+		cls("rescale: 2^1..2^30")
+	}
 
-		stats.Class("family:" + fam)
-		if c.Ring {
-			stats.Class("kind:ring")
-		} else {
-			stats.Class("kind:line")
-		}
-		if len(pts) >= 3 && pts[0] == pts[len(pts)-1] {
-			stats.Class("closed")
-		}
-		stats.Class("dp threshold:" + ka)
-		stats.Class("dp threshold:" + kb)
-		stats.Class("radial threshold:" + kr)
-		stats.Class("radial df:" + c.DF)
-		stats.Class("area threshold:" + kx)
-		stats.Class("area threshold:" + ky)
-		switch {
-		case c.Keep == 0:
-			stats.Class("keep:default")
-		case c.Keep > len(pts):
-			stats.Class("keep:> len")
-		default:
-			stats.Class("keep:2..len")
-		}
+	cls("family:" + fam)
+	if c.Ring {
+		cls("kind:ring")
+	} else {
+		cls("kind:line")
+	}
+	if len(pts) >= 3 && pts[0] == pts[len(pts)-1] {
+		cls("closed")
+	}
+	cls("dp threshold:" + ka)
+	cls("dp threshold:" + kb)
+	cls("radial threshold:" + kr)
+	cls("radial df:" + c.DF)
+	cls("area threshold:" + kx)
+	cls("area threshold:" + ky)
+	switch {
+	case c.Keep == 0:
+		cls("keep:default")
+	case c.Keep > len(pts):
+		cls("keep:> len")
+	default:
+		cls("keep:2..len")
+	}
+	return c
+}
+
+func TestPropLine(t *testing.T) {
+	assumptions()
+	stats.Check(t, 160000, 3000000, func(rt *rapid.T) {
+		c := drawLineCase(rt, true)
 		stats.Try(rt, "TestPropLine", c, func() error {
 			inf, err := checkLine(c)
 			classifyLine(c, inf, err)
@@ -1332,8 +1449,8 @@ func genSpec(t *rapid.T, pts []orb.Point) Spec {
 		v, _ := genDist(t, "t", pts, planar.Distance)
 		s.T = gen.F(v)
 	case "radial":
-		s.DF = rapid.SampledFrom([]string{"planar", "planar", "manhattan"}).Draw(t, "df")
-		v, _ := genDist(t, "t", pts, distFunc(s.DF))
+		s.DF = rapid.SampledFrom([]string{"planar", "planar-reentrant", "manhattan"}).Draw(t, "df")
+		v, _ := genDist(t, "t", pts, oracleDF(s.DF))
 		s.T = gen.F(v)
 	case "vis", "visthr":
 		v, _ := genArea(t, "t", pts)
@@ -1345,22 +1462,28 @@ func genSpec(t *rapid.T, pts []orb.Point) Spec {
 	return s
 }
 
+func drawGeomCase(rt *rapid.T) GeomCase {
+	var g orb.Geometry
+	if rapid.IntRange(0, 29).Draw(rt, "nilgeom") != 15 {
+		g = genGeom(rt, 0)
+	}
+	c := GeomCase{G: gen.G{V: g}}
+	for i := rapid.IntRange(0, 3).Draw(rt, "more"); i > 0; i-- {
+		if rapid.IntRange(0, 9).Draw(rt, "nilfeature") == 5 {
+			c.More = append(c.More, gen.G{})
+		} else {
+			c.More = append(c.More, gen.G{V: genGeom(rt, 1)})
+		}
+	}
+	c.S = genSpec(rt, allPoints(g))
+	return c
+}
+
 func TestPropGeom(t *testing.T) {
 	assumptions()
 	stats.Check(t, 60000, 1500000, func(rt *rapid.T) {
-		var g orb.Geometry
-		if rapid.IntRange(0, 29).Draw(rt, "nilgeom") != 15 {
-			g = genGeom(rt, 0)
-		}
-		c := GeomCase{G: gen.G{V: g}}
-		for i := rapid.IntRange(0, 3).Draw(rt, "more"); i > 0; i-- {
-			if rapid.IntRange(0, 9).Draw(rt, "nilfeature") == 5 {
-				c.More = append(c.More, gen.G{})
-			} else {
-				c.More = append(c.More, gen.G{V: genGeom(rt, 1)})
-			}
-		}
-		c.S = genSpec(rt, allPoints(g))
+		c := drawGeomCase(rt)
+		g := c.G.V
 		stats.Class("geom kind:" + gen.KindOf(g))
 		stats.Class("geom algo:" + c.S.Algo)
 		stats.Try(rt, "TestPropGeom", c, func() error {
@@ -1387,7 +1510,7 @@ func genHistSpec(t *rapid.T, pts []orb.Point) Spec {
 		if s.DF == "" {
 			s.DF = "planar"
 		}
-		v, _ := genDist(t, "ht", pts, distFunc(s.DF))
+		v, _ := genDist(t, "ht", pts, oracleDF(s.DF))
 		s.T = gen.F(v)
 	case "dp":
 		v, _ := genDist(t, "ht", pts, planar.Distance)
@@ -1447,6 +1570,119 @@ func TestPropHistory(t *testing.T) {
 				stats.NonTrivial(gen.JSON(c))
 				if stats.WantSample("history:" + c.S.Algo) {
 					stats.Sample("history:"+c.S.Algo, c)
+				}
+			}
+			return err
+		})
+	})
+}
+
+// ---------------------------------------------------------------- TestPropConcurrent
+
+// ConcItem is one member of a concurrent group: a line case (all three
+// simplifiers, typed methods) or a geometry case (generic entry point on any
+// kind, mvt layers).
+type ConcItem struct {
+	L *LineCase `json:"line,omitempty"`
+	G *GeomCase `json:"geom,omitempty"`
+}
+
+func (it ConcItem) check() (info, error) {
+	if it.L != nil {
+		return checkLine(*it.L)
+	}
+	return checkGeom(*it.G)
+}
+
+// outputs runs only the simplifier calls of the member (no oracle): what the
+// goroutines repeat, so that nearly all of their time is spent inside orb.
+func (it ConcItem) outputs() []orb.Geometry {
+	var res []orb.Geometry
+	if it.G != nil {
+		s := it.G.S.make()
+		res = append(res, s.Simplify(gen.DeepCopy(it.G.G.V)))
+		for _, m := range it.G.More {
+			res = append(res, s.Simplify(gen.DeepCopy(m.V)))
+		}
+		return res
+	}
+	c := *it.L
+	in := c.pts()
+	for _, sp := range []Spec{
+		{Algo: "dp", T: c.TD1}, {Algo: "dp", T: c.TD2}, {Algo: "radial", T: c.TR, DF: c.DF},
+		{Algo: "visthr", T: c.TA1}, {Algo: "visthr", T: c.TA2}, {Algo: "viskeep", Keep: c.Keep},
+		{Algo: "vis", T: c.TA1, Keep: c.Keep}, {Algo: "vis", T: c.TA2, Keep: c.Keep},
+	} {
+		res = append(res, orb.LineString(apply(sp.make(), in, c.Ring)))
+		// and through the generic entry point
+		var g orb.Geometry = orb.LineString(clonePts(in))
+		if c.Ring {
+			g = orb.Ring(clonePts(in))
+		}
+		res = append(res, sp.make().Simplify(g))
+	}
+	return res
+}
+
+func sameOutputs(a, b []orb.Geometry) error {
+	if len(a) != len(b) {
+		return fmt.Errorf("%d results instead of %d", len(a), len(b))
+	}
+	for i := range a {
+		if same, diff := gen.SameBits(a[i], b[i]); !same {
+			return fmt.Errorf("simplifier call %d of the member returns something else than when it runs alone (%s): alone=%s concurrent=%s", i, diff, gen.Canon(b[i]), gen.Canon(a[i]))
+		}
+	}
+	return nil
+}
+
+// concGroup judges every member alone with its full oracle, records the
+// outputs of its simplifier calls, then lets all members repeat those calls at
+// the same time on separate goroutines: every output must be bit-equal to the
+// one obtained alone. It returns the number of non-trivial members.
+func concGroup(cs []ConcItem, rounds int, parallel func(n, rounds int, f func(i int) error) error) (int, error) {
+	nt := 0
+	base := make([][]orb.Geometry, len(cs))
+	for i := range cs {
+		inf, err := cs[i].check()
+		if err != nil {
+			return nt, fmt.Errorf("member %d alone (sequential): %v", i, err)
+		}
+		if len(inf.nontrivial) > 0 {
+			nt++
+		}
+		base[i] = cs[i].outputs()
+	}
+	return nt, parallel(len(cs), rounds, func(i int) error { return sameOutputs(cs[i].outputs(), base[i]) })
+}
+
+// TestPropConcurrent evaluates 2..8 independent cases at the same time on
+// separate goroutines, 25 rounds each. The simplifiers are functions of their
+// receiver's parameters and their argument only, so every call must return
+// exactly what it returns alone (which the full oracle has judged): a failure
+// means that concurrent callers share state inside the package (work stack,
+// heap, mask or result kept in package-level variables).
+func TestPropConcurrent(t *testing.T) {
+	assumptions()
+	stats.Check(t, 2000, 100000, func(rt *rapid.T) {
+		n := rapid.IntRange(2, 8).Draw(rt, "goroutines")
+		cs := make([]ConcItem, n)
+		for i := range cs {
+			if rapid.IntRange(0, 3).Draw(rt, "item") == 2 {
+				g := drawGeomCase(rt)
+				cs[i] = ConcItem{G: &g}
+			} else {
+				l := drawLineCase(rt, false)
+				cs[i] = ConcItem{L: &l}
+			}
+		}
+		stats.Class(fmt.Sprintf("concurrent:%d goroutines", n))
+		stats.Try(rt, "TestPropConcurrent", cs, func() error {
+			nt, err := concGroup(cs, 25, stats.ParallelErr)
+			if err == nil && nt >= 2 {
+				stats.NonTrivial("conc:" + gen.JSON(cs))
+				if stats.WantSample("concurrent") {
+					stats.Sample("concurrent", cs)
 				}
 			}
 			return err
@@ -1569,6 +1805,21 @@ func TestReplay(t *testing.T) {
 	name, raw, ok := stats.Replaying()
 	if !ok {
 		t.Skip("no replay file")
+	}
+	if name == "TestPropConcurrent" {
+		var cs []ConcItem
+		if e := json.Unmarshal(raw, &cs); e != nil {
+			t.Fatal(e)
+		}
+		stats.TryT(t, "replayed concurrent group still fails", cs, func() error {
+			for k := 0; k < 20; k++ {
+				if _, err := concGroup(cs, 200, stats.ParallelErr); err != nil {
+					return err
+				}
+			}
+			return nil
+		})
+		return
 	}
 	if name == "TestPropHistory" {
 		var c HistCase
